@@ -128,48 +128,256 @@ func runR071(c *core.Ctx) {
 	})
 	c.Check(okAll && nRet > 0, rel, "(*genericWriter).WriteMap", "a real writer is handed out only after the key was pushed and found not excluded", lit.Pos(), "",
 		"some path returns a writing Writer without enterScope(key) followed by the false edge of excludedFields.Matches(scope)")
-	// started-flag protocol
-	var flag types.Object
-	protoIn, protoOut := false, false
-	if len(lit.Body.List) >= 2 {
-		if ifs, ok := lit.Body.List[0].(*ast.IfStmt); ok {
-			flag = core.ObjOf(inf, ifs.Cond)
-			thenExit, elseSet := false, false
-			for _, s := range ifs.Body.List {
-				if es, ok := s.(*ast.ExprStmt); ok {
-					if call, ok := es.X.(*ast.CallExpr); ok && isExit(call) {
-						thenExit = true
+	// started-flag protocol, on the control flow graphs of the key closure and of WriteMap: the flag (a boolean variable
+	// or field the closure raises) says whether a key scope is currently pushed.  In the closure every path tests it;
+	// where it is up the scope is popped exactly once before the push, where it is down nothing is popped and the flag
+	// is raised; every path pushes exactly once.  After the callback WriteMap pops exactly once where the flag is up and
+	// not at all where it is down (error returns leave the stack to the caller, which discards the writer).
+	var flagExpr ast.Expr
+	ast.Inspect(lit.Body, func(n ast.Node) bool {
+		if as, ok := n.(*ast.AssignStmt); ok && len(as.Lhs) == 1 && len(as.Rhs) == 1 && as.Tok == token.ASSIGN {
+			if cv := core.ConstOf(inf, as.Rhs[0]); cv != nil && cv.ExactString() == "true" && flagExpr == nil {
+				switch core.Unparen(as.Lhs[0]).(type) {
+				case *ast.Ident, *ast.SelectorExpr:
+					flagExpr = as.Lhs[0]
+				}
+			}
+		}
+		return true
+	})
+	protoIn, protoOut := "", ""
+	if flagExpr == nil {
+		protoIn, protoOut = "the key closure raises no flag", "the key closure raises no flag"
+	} else {
+		isFlag := func(e ast.Expr) bool { return core.SameExpr(inf, e, flagExpr) }
+		const (
+			fkT    = 1
+			fkF    = 2
+			exit1  = 4
+			exit2  = 8
+			raised = 16
+			push1  = 32
+			push2  = 64
+			after  = 128
+		)
+		flagEdge := func(state int, facts []core.Fact) (int, bool) {
+			for _, f := range facts {
+				if f.Tag == nil && isFlag(f.Expr) {
+					if (f.Val && state&fkF != 0) || (!f.Val && state&fkT != 0) {
+						return state, false
+					}
+					if f.Val {
+						state |= fkT
+					} else {
+						state |= fkF
 					}
 				}
 			}
-			if eb, ok := ifs.Else.(*ast.BlockStmt); ok {
-				for _, s := range eb.List {
-					if as, ok := s.(*ast.AssignStmt); ok && len(as.Lhs) == 1 && core.ObjOf(inf, as.Lhs[0]) == flag {
-						if cv := core.ConstOf(inf, as.Rhs[0]); cv != nil && cv.ExactString() == "true" {
-							elseSet = true
+			return state, true
+		}
+		setIn := func(msg string) {
+			if protoIn == "" {
+				protoIn = msg
+			}
+		}
+		nRet := 0
+		core.NewFlow(c.M, inf, lit.Body).Run(&core.Automaton{
+			AtEnd: true,
+			Node: func(state int, n ast.Node) int {
+				if as, ok := n.(*ast.AssignStmt); ok {
+					for i, l := range as.Lhs {
+						if isFlag(l) {
+							if cv := core.ConstOf(inf, as.Rhs[min(i, len(as.Rhs)-1)]); cv != nil && cv.ExactString() == "true" && len(as.Lhs) == len(as.Rhs) {
+								state |= raised
+							} else {
+								setIn("the flag is assigned something other than true in the key closure")
+							}
 						}
 					}
 				}
-			}
-			if es, ok := lit.Body.List[1].(*ast.ExprStmt); ok {
-				if call, ok := es.X.(*ast.CallExpr); ok && isEnter(call) && thenExit && elseSet && flag != nil {
-					protoIn = true
-				}
-			}
-		}
-	}
-	for _, s := range wm.Body.List {
-		if ifs, ok := s.(*ast.IfStmt); ok && flag != nil && core.ObjOf(inf, ifs.Cond) == flag && ifs.Else == nil && s.Pos() > lit.End() {
-			for _, bs := range ifs.Body.List {
-				if es, ok := bs.(*ast.ExprStmt); ok {
-					if call, ok := es.X.(*ast.CallExpr); ok && isExit(call) {
-						protoOut = true
+				for _, call := range core.CallsIn(n) {
+					switch {
+					case isExit(call):
+						if state&push1 != 0 {
+							setIn("the scope is popped after the push in the key closure")
+						}
+						if state&exit1 != 0 {
+							state |= exit2
+						}
+						state |= exit1
+					case isEnter(call):
+						if state&fkT != 0 && state&exit1 == 0 {
+							setIn("a key is pushed while the previous key's scope is still on the stack")
+						}
+						if state&push1 != 0 {
+							state |= push2
+						}
+						state |= push1
 					}
 				}
+				if _, ok := n.(*ast.ReturnStmt); ok {
+					nRet++
+					switch {
+					case state&(fkT|fkF) == 0:
+						setIn("a path through the key closure does not consult the flag")
+					case state&push1 == 0 || state&push2 != 0:
+						setIn("a path through the key closure does not push the key exactly once")
+					case state&fkT != 0 && (state&exit1 == 0 || state&exit2 != 0):
+						setIn("with a scope pending, the key closure does not pop it exactly once")
+					case state&fkF != 0 && state&exit1 != 0:
+						setIn("the key closure pops a scope although none was pushed by this map")
+					case state&fkF != 0 && state&raised == 0:
+						setIn("the key closure pushes the first key without raising the flag: the scope is never popped")
+					}
+				}
+				return state
+			},
+			Edge: flagEdge,
+		})
+		if nRet == 0 {
+			setIn("the key closure never returns")
+		}
+		// the flag starts lowered
+		startsDown := false
+		switch x := core.Unparen(flagExpr).(type) {
+		case *ast.Ident:
+			o := core.ObjOf(inf, x)
+			ast.Inspect(wm.Body, func(n ast.Node) bool {
+				switch d := n.(type) {
+				case *ast.AssignStmt:
+					for i, l := range d.Lhs {
+						if id, ok := core.Unparen(l).(*ast.Ident); ok && inf.Defs[id] == o && len(d.Lhs) == len(d.Rhs) {
+							if cv := core.ConstOf(inf, d.Rhs[i]); cv != nil && cv.ExactString() == "false" {
+								startsDown = true
+							}
+						}
+					}
+				case *ast.ValueSpec:
+					for i, nm := range d.Names {
+						if inf.Defs[nm] == o {
+							if i >= len(d.Values) {
+								startsDown = true
+							} else if cv := core.ConstOf(inf, d.Values[i]); cv != nil && cv.ExactString() == "false" {
+								startsDown = true
+							}
+						}
+					}
+				}
+				return true
+			})
+		case *ast.SelectorExpr:
+			// a field of a value built in WriteMap by a composite literal that does not raise it
+			base := core.ObjOf(inf, x.X)
+			field := core.ObjOf(inf, x)
+			ast.Inspect(wm.Body, func(n ast.Node) bool {
+				as, ok := n.(*ast.AssignStmt)
+				if !ok || len(as.Lhs) != len(as.Rhs) {
+					return true
+				}
+				for i, l := range as.Lhs {
+					if id, ok := core.Unparen(l).(*ast.Ident); !ok || inf.Defs[id] != base || base == nil {
+						continue
+					}
+					e := core.Unparen(as.Rhs[i])
+					if u, ok := e.(*ast.UnaryExpr); ok && u.Op == token.AND {
+						e = core.Unparen(u.X)
+					}
+					cl, ok := e.(*ast.CompositeLit)
+					if !ok {
+						continue
+					}
+					startsDown = true
+					for _, el := range cl.Elts {
+						kv, ok := el.(*ast.KeyValueExpr)
+						if !ok {
+							startsDown = false // positional literal: not tracked
+							continue
+						}
+						if core.ObjOf(inf, kv.Key) == field || (identName(kv.Key) == x.Sel.Name) {
+							if cv := core.ConstOf(inf, kv.Value); cv == nil || cv.ExactString() != "false" {
+								startsDown = false
+							}
+						}
+					}
+				}
+				return true
+			})
+		}
+		if !startsDown {
+			setIn("the flag is not known to start lowered")
+		}
+		// after the callback
+		sig := inf.Defs[wm.Name].Type().(*types.Signature)
+		wpar := core.Parents(wm)
+		setOut := func(msg string) {
+			if protoOut == "" {
+				protoOut = msg
 			}
 		}
+		sawCallback := false
+		core.NewFlow(c.M, inf, wm.Body).Run(&core.Automaton{
+			AtEnd: true,
+			Node: func(state int, n ast.Node) int {
+				hasLit := false
+				core.WalkNoFuncLit(n, func(m ast.Node) bool {
+					if call, ok := m.(*ast.CallExpr); ok {
+						for _, a := range call.Args {
+							if core.Unparen(a) == ast.Expr(lit) {
+								hasLit = true
+							}
+						}
+					}
+					return true
+				})
+				if hasLit {
+					sawCallback = true
+					return after
+				}
+				if state&after == 0 {
+					return state
+				}
+				if as, ok := n.(*ast.AssignStmt); ok {
+					for _, l := range as.Lhs {
+						if isFlag(l) {
+							setOut("the flag is assigned after the callback")
+						}
+					}
+				}
+				for _, call := range core.CallsIn(n) {
+					if isExit(call) {
+						if state&exit1 != 0 {
+							state |= exit2
+						}
+						state |= exit1
+					}
+					if isEnter(call) {
+						setOut("WriteMap pushes a scope after the callback")
+					}
+				}
+				if r, ok := n.(*ast.ReturnStmt); ok && core.ErrorReturn(inf, wpar, sig, r) != "error" {
+					switch {
+					case state&(fkT|fkF) == 0:
+						setOut("a successful path after the callback does not consult the flag: the last key's scope stays on the stack")
+					case state&fkT != 0 && (state&exit1 == 0 || state&exit2 != 0):
+						setOut("with a key scope pending after the callback, it is not popped exactly once")
+					case state&fkF != 0 && state&exit1 != 0:
+						setOut("a scope is popped after the callback although no key was written")
+					}
+				}
+				return state
+			},
+			Edge: func(state int, facts []core.Fact) (int, bool) {
+				if state&after == 0 {
+					return state, true
+				}
+				return flagEdge(state, facts)
+			},
+		})
+		if !sawCallback {
+			setOut("the call receiving the key closure was not found")
+		}
 	}
-	c.Check(protoIn && protoOut, rel, "(*genericWriter).WriteMap", "scope stack balanced by the started-flag protocol", wm.Pos(), "", fmt.Sprintf("exit-if-started before each push: %v; exit-if-started after the callback: %v", protoIn, protoOut))
+	c.Check(protoIn == "" && protoOut == "", rel, "(*genericWriter).WriteMap", "scope stack balanced by the started-flag protocol", wm.Pos(), "", strings.TrimPrefix(protoIn+"; "+protoOut, "; "))
 	// WriteArray / IsKeyExcluded pairing
 	for _, name := range []string{"(*genericWriter).WriteArray", "(*genericWriter).IsKeyExcluded"} {
 		_, fd := mustDecl(c, rel, name)
@@ -567,4 +775,11 @@ func runR071root(c *core.Ctx) {
 		return true
 	})
 	c.Check(push != token.NoPos && match > push && pop > match, rel, "(*genericWriter).IsKeyExcluded", "pushes the key, matches the scope, pops it", ik.Pos(), "", "IsKeyExcluded does not push / match / pop in that order")
+}
+
+func identName(e ast.Expr) string {
+	if id, ok := core.Unparen(e).(*ast.Ident); ok {
+		return id.Name
+	}
+	return ""
 }
